@@ -222,8 +222,28 @@ func (s *sharedEntryAttributes) toXmlInternal(parent *etree.Element, onlyNewOrUp
 					if s.parent == nil {
 						newElem = parent
 					}
+					child, exists := s.childs.GetEntry(k)
+					if exists && len(child.GetSchemaKeys()) > 0 {
+						// a list has no element of its own in the document: every entry is deleted by an
+						// element that carries its keys
+						entries, err := child.FilterChilds(nil)
+						if err != nil {
+							return false, err
+						}
+						slices.SortFunc(entries, getListEntrySortFunc(child))
+						for _, entry := range entries {
+							delElem := newElem.CreateElement(k)
+							if s.parent != nil {
+								xmlAddNamespaceConditional(child, s, delElem, honorNamespace)
+							}
+							utils.AddXMLOperation(delElem, utils.XMLOperationDelete, operationWithNamespace, useOperationRemove)
+							xmlAddKeyElements(entry, delElem)
+							overallDoAdd = true
+						}
+						continue
+					}
 					delElem := newElem.CreateElement(k)
-					if child, exists := s.childs.GetEntry(k); exists && s.parent != nil {
+					if exists && s.parent != nil {
 						xmlAddNamespaceConditional(child, s, delElem, honorNamespace)
 					}
 					utils.AddXMLOperation(delElem, utils.XMLOperationDelete, operationWithNamespace, useOperationRemove)
